@@ -14,6 +14,7 @@ import (
 	"hash/fnv"
 	"io"
 	"math"
+	"os"
 	"reflect"
 	"strconv"
 	"strings"
@@ -128,11 +129,15 @@ func commandLine(c cmd.Command) (fresh cmd.Command, args []string, ok bool) {
 // respellBases rewrites, for half of the cases (chosen by the case's salt), a local
 // base directory into another spelling of the same directory - a trailing slash, a doubled separator, a "."
 // component - as a user types them. URLs are left alone.
-func respellBases(c cmd.Command) {
-	v := reflect.ValueOf(c)
-	if v.Kind() != reflect.Ptr || v.Elem().Kind() != reflect.Struct {
-		return
+func respellBases(c cmd.Command) cmd.Command {
+	v0 := reflect.ValueOf(c)
+	if v0.Kind() != reflect.Ptr || v0.Elem().Kind() != reflect.Struct {
+		return c
 	}
+	// (a copy: the caller may execute its command object again)
+	v := reflect.New(v0.Elem().Type())
+	v.Elem().Set(v0.Elem())
+
 	for _, name := range []string{"SrcBase", "DestBase"} {
 		f := v.Elem().FieldByName(name)
 		if !f.IsValid() || f.Kind() != reflect.String || !f.CanSet() {
@@ -143,6 +148,20 @@ func respellBases(c cmd.Command) {
 			continue
 		}
 		i := strings.LastIndexByte(p, '/')
+		if name == "SrcBase" && i > 0 {
+			switch (caseSalt() / 11) % 10 {
+			case 0, 1:
+				// a path relative to the working directory (runCommand restores the directory afterwards)
+				if os.Chdir(p[:i]) == nil {
+					if (caseSalt()/11)%10 == 0 {
+						f.SetString(p[i+1:])
+					} else {
+						f.SetString("./" + p[i+1:])
+					}
+					continue
+				}
+			}
+		}
 		switch (caseSalt()/7 + uint64(len(name))) % 8 {
 		case 0:
 			f.SetString(p + "/")
@@ -154,6 +173,10 @@ func respellBases(c cmd.Command) {
 			f.SetString(p + "/.")
 		}
 	}
+	if cc, ok := v.Interface().(cmd.Command); ok {
+		return cc
+	}
+	return c
 }
 
 // throughFlags returns the command to execute: c itself, or its Parse-d equivalent.
@@ -161,7 +184,7 @@ func throughFlags(c cmd.Command) cmd.Command {
 	if viaFlagsOff {
 		return c
 	}
-	respellBases(c)
+	c = respellBases(c)
 	fresh, args, ok := commandLine(c)
 	if !ok {
 		return c
